@@ -179,14 +179,10 @@ class Exec(HeapMixin, Engine):
             return s
         if t.kind == "array":
             a = ArrObj(t.to, t.n, "list")
-            filler = None
-            for c in n.get("array_filler", []):
-                pass
-            items = [self._init_value(st, c, t.to) for c in inner if c.get("kind") != "ImplicitValueInitExpr" or True]
-            # clang lists explicit initialisers; the rest is zero (array_filler)
-            real = []
-            for c in inner:
-                real.append(self._init_value(st, c, t.to))
+            if "array_filler" in n:
+                # clang: array_filler = [filler expr, explicit initialisers...]
+                inner = [c for c in n["array_filler"][1:]]
+            real = [self._init_value(st, c, t.to) for c in inner]
             while len(real) < (t.n or 0):
                 real.append(self.zero_value(t.to))
             a.items = real[: t.n] if t.n else real
